@@ -37,12 +37,11 @@ ASSUMPTIONS = [
     "line break (not judged by this property)",
 ]
 OPEN = [
-    "C15_structure states `one picture environment` on the list of blocks `render` joins (no block other than the two "
-    "delimiters equals a delimiter; generated obligation picture_env_once: no literal piece of another template "
-    "contains one); that no hole FILLING contains the delimiter text is not a theorem (checked on every rendered text)",
     "fmtCoord models round(x, 4) / float repr for exactly representable (dyadic) coordinates only; the drawing code "
     "itself (_tikz_draw_fork / _tikz_draw_branches / render's species loop) is modelled (Model/TikzDraw.lean), proved "
-    "(C15_draw_valid_all) and tied byte for byte",
+    "(C15_draw_valid_all) and tied byte for byte; `one picture environment` is a theorem on the ASSEMBLED TEXT for "
+    "labels computed from brace-free names and families (C15_delims_once, C15_structure_text, "
+    "C15_draw_valid_delims_labels; delimFree of the regenerated templates is a kernel-decided obligation)",
 ]
 
 ALPHA_NAME = "abcXYZ019__\\\\"  # letters, digits, underscores, backslashes (the latter two over-sampled)
